@@ -1,6 +1,7 @@
 package main
 
 import (
+	"os"
 	"fmt"
 	"go/constant"
 	"go/token"
@@ -137,7 +138,7 @@ func (v *fnVC) oblige(kind, text string, goal T, pos token.Pos) {
 		// sweep functions claim no frame (nothing is assumed about it either)
 		return
 	}
-	if v.con != nil && v.con.Sweep && strings.HasPrefix(kind, "pre@") && !hasStr(v.con.CheckPre, strings.TrimPrefix(kind, "pre@")) {
+	if v.con != nil && v.con.Sweep && strings.HasPrefix(kind, "pre@") && !hasStr(v.con.CheckPre, strings.TrimPrefix(kind, "pre@")) && !hasStr(v.con.CheckPre, "*") && os.Getenv("UCFGVC_PROBE_PRE") == "" {
 		// sweep functions claim their own run-time errors only: callee preconditions are assumed to hold
 		v.assume(implies(v.reach[v.blk], goal))
 		return
